@@ -142,6 +142,35 @@ func runC40(c *an.Ctx) {
 		if vals, ok := an.LocalFieldValues(elems[1]); ok && len(vals) == 1 {
 			elems[1] = vals[0] // the encoded name was parked in a local struct field
 		}
+		// the leaf may be a parameter of an unexported helper (`writeNewKeyFile(filename, …)`):
+		// then every caller must pass an encoded name on the encoder's nil edge
+		if pr, isP := elems[1].(*ssa.Parameter); isP && depth > 0 && fn.Object() != nil && !fn.Object().Exported() {
+			idx := -1
+			for i, q := range fn.Params {
+				if q == pr {
+					idx = i
+				}
+			}
+			n := 0
+			for _, g := range fns {
+				for _, call := range an.AllCalls(g) {
+					if an.Callee(call).Static != fn || idx < 0 || idx >= len(call.Common().Args) {
+						continue
+					}
+					n++
+					arg := call.Common().Args[idx]
+					ec, isCall := an.IsCallTo(arg, an.M(ks, "-", ""))
+					e, isE := arg.(*ssa.Extract)
+					if !isCall || !isE || e.Index != 0 || ec.Common().StaticCallee() == nil || !an.OnNilEdgeOf(g, ec, call) {
+						return false, "", "a caller (" + an.FuncName(g) + ") passes a file name that is not the encoder's result on its nil edge"
+					}
+					encoders[ec.Common().StaticCallee()] = true
+				}
+			}
+			if n > 0 {
+				return true, "Join(dir,encode(name))", ""
+			}
+		}
 		ec, isCall := an.IsCallTo(elems[1], an.M(ks, "-", ""))
 		if e, isE := elems[1].(*ssa.Extract); !isCall || !isE || e.Index != 0 || ec.Common().StaticCallee() == nil {
 			return false, "", "the leaf joined under ks.dir is not the result of the package's name encoder: " + an.ShowPath(elems[1])
@@ -327,43 +356,61 @@ func runC40(c *an.Ctx) {
 	}
 	c.Min("O1 base32 DecodeString calls (decode mirror)", nDec, 1)
 	// List returns only decoded names
-	if lf := p.Func(ks, "FSKeystore", "List"); c.Need(lf != nil, "FSKeystore.List") {
-		nAp := 0
-		for _, ap := range an.Calls(lf, an.M("builtin", "", "append")) {
-			args := ap.Common().Args
-			if len(args) != 2 {
-				continue
-			}
-			if s, ok := args[0].Type().Underlying().(*types.Slice); !ok || !types.Identical(s.Elem(), types.Typ[types.String]) {
-				continue
-			}
-			nAp++
-			elems := c14VarargInOrder(args[1])
-			okL := len(elems) > 0
-			for _, e := range elems {
-				dcall, ok := an.IsCallTo(e, an.M(ks, "-", ""))
-				if !ok || !an.OnNilEdgeOf(lf, dcall, ap) {
-					okL = false
+	if lf0 := p.Func(ks, "FSKeystore", "List"); c.Need(lf0 != nil, "FSKeystore.List") {
+		// List and the package-local helpers it calls (the listing may be built there)
+		listFns := []*ssa.Function{lf0}
+		for i := 0; i < len(listFns) && i < 8; i++ {
+			for _, call := range an.AllCalls(listFns[i]) {
+				if h := an.Callee(call).Static; h != nil && h.Pkg == lf0.Pkg && len(h.Blocks) > 0 && !encoders[h] {
+					dup := false
+					for _, q := range listFns {
+						if q == h {
+							dup = true
+						}
+					}
+					if !dup && len(an.Calls(h, an.M("encoding/base32", "Encoding", "DecodeString"))) == 0 {
+						listFns = append(listFns, h)
+					}
 				}
 			}
-			c.Check(okL, "O1", "R-FLOW", an.FuncName(lf), "list<-decode(filename) ok", ap.Pos(), "only successfully decoded file names are listed", "List() reports a raw directory entry or a name whose decoding failed")
+		}
+		nAp, nRd := 0, 0
+		for _, lf := range listFns {
+			for _, ap := range an.Calls(lf, an.M("builtin", "", "append")) {
+				args := ap.Common().Args
+				if len(args) != 2 {
+					continue
+				}
+				if s, ok := args[0].Type().Underlying().(*types.Slice); !ok || !types.Identical(s.Elem(), types.Typ[types.String]) {
+					continue
+				}
+				nAp++
+				elems := c14VarargInOrder(args[1])
+				okL := len(elems) > 0
+				for _, e := range elems {
+					dcall, ok := an.IsCallTo(e, an.M(ks, "-", ""))
+					if !ok || !an.OnNilEdgeOf(lf, dcall, ap) {
+						okL = false
+					}
+				}
+				c.Check(okL, "O1", "R-FLOW", an.FuncName(lf), "list<-decode(filename) ok", ap.Pos(), "only successfully decoded file names are listed", "List() reports a raw directory entry or a name whose decoding failed")
+			}
+			for _, rc := range an.AllCalls(lf) {
+				ci := an.Callee(rc)
+				if ci.Pkg != "os" || ci.Recv != "File" || (ci.Name != "Readdirnames" && ci.Name != "Readdir" && ci.Name != "ReadDir") {
+					continue
+				}
+				nRd++
+				k, isK := an.ConstOf(an.Args(rc)[0])
+				okAll := false
+				if isK {
+					n, _ := constant.Int64Val(k)
+					okAll = n <= 0
+				}
+				c.Check(okAll, "O1", "R-API", an.FuncName(lf), "(*os.File)."+ci.Name+"(n<=0)", rc.Pos(), "the whole directory is read", "List() reads the directory with a positive (or computed) entry limit: keys beyond the limit are silently missing from the listing")
+			}
 		}
 		c.Min("O1 appends to the listing", nAp, 1)
-		nRd := 0
-		for _, rc := range an.AllCalls(lf) {
-			ci := an.Callee(rc)
-			if ci.Pkg != "os" || ci.Recv != "File" || (ci.Name != "Readdirnames" && ci.Name != "Readdir" && ci.Name != "ReadDir") {
-				continue
-			}
-			nRd++
-			k, isK := an.ConstOf(an.Args(rc)[0])
-			okAll := false
-			if isK {
-				n, _ := constant.Int64Val(k)
-				okAll = n <= 0
-			}
-			c.Check(okAll, "O1", "R-API", an.FuncName(lf), "(*os.File)."+ci.Name+"(n<=0)", rc.Pos(), "the whole directory is read", "List() reads the directory with a positive (or computed) entry limit: keys beyond the limit are silently missing from the listing")
-		}
 		c.Min("O1 directory reads in List", nRd, 1)
 	}
 
@@ -491,63 +538,19 @@ func runC40(c *an.Ctx) {
 		memCut := an.BoolEdges(memf, okVals, !rw.memFound) // cut the opposite outcome
 		memKinds := retKinds(memf, memLookup, memCut, nil)
 		// FS outcome: the os call on the key file
-		var osCall ssa.CallInstruction
-		for _, call := range an.AllCalls(fsf) {
-			ci := an.Callee(call)
-			if ci.Pkg == "os" && ci.Recv == "" && len(an.ErrResult(call)) > 0 {
-				osCall = call
-			}
-		}
-		if osCall == nil {
-			// the file operation may sit in a package-local helper that returns its error
-			for _, call := range an.AllCalls(fsf) {
-				h := an.Callee(call).Static
-				if h == nil || h.Pkg != fsf.Pkg || len(an.ErrResult(call)) == 0 {
-					continue
-				}
-				has := false
-				for _, hcall := range an.AllCalls(h) {
-					if hci := an.Callee(hcall); hci.Pkg == "os" && hci.Recv == "" && len(an.ErrResult(hcall)) > 0 {
-						has = true
-					}
-				}
-				if has {
-					osCall = call
-				}
-			}
-		}
-		if osCall == nil {
+		fsKinds, osCall, nTests, okFS := c40FSKinds(fsf, rw.sentinel, kindOf, 2)
+		if !okFS {
 			c.Note("C40 O3: FSKeystore.%s performs no file operation the sibling rule can find; not decided", rw.method)
 			continue
 		}
-		errs := an.ErrResult(osCall)
-		errAl := an.Aliases(errs...)
-		isErr := func(v ssa.Value) bool { return errAl[v] }
-		// errors.Is(err, fs.<sentinel>) calls
-		var isCalls []ssa.Value
-		for _, ic := range an.Calls(fsf, an.M("errors", "-", "Is")) {
-			args := an.Args(ic)
-			if !isErr(args[0]) {
-				continue
-			}
-			if u, ok := args[1].(*ssa.UnOp); ok {
-				if g, ok := u.X.(*ssa.Global); ok && g.Name() == rw.sentinel && (g.Pkg.Pkg.Path() == "io/fs" || g.Pkg.Pkg.Path() == "os") {
-					isCalls = append(isCalls, an.CallValue(ic))
-				}
-			}
-		}
-		cut := an.NilEdges(fsf, errs, true) // the call failed
-		if len(isCalls) > 0 {
-			cut = cut.Union(an.BoolEdges(fsf, isCalls, false)) // ... with the sentinel
-		}
-		fsKinds := retKinds(fsf, osCall, cut, errs)
+		isCalls := make([]int, nTests)
 		tested := "tests errors.Is(err, fs." + rw.sentinel + ")"
 		if len(isCalls) == 0 {
 			tested = "never tests errors.Is(err, fs." + rw.sentinel + ")"
 		}
 		c.Check(strings.Join(fsKinds, ",") == strings.Join(memKinds, ",") && len(memKinds) > 0, "O3", "R-SIB", an.FuncName(fsf), rw.method+"("+rw.what+") agrees with MemKeystore", osCall.Pos(),
 			"for "+rw.what+" both keystores return error kind {"+strings.Join(memKinds, ",")+"}",
-			"for "+rw.what+" FSKeystore."+rw.method+" ("+tested+" after os."+an.Callee(osCall).Name+") returns error kind {"+strings.Join(fsKinds, ",")+"} but MemKeystore."+rw.method+" returns {"+strings.Join(memKinds, ",")+"}: the two keystores disagree, the FS keystore does not behave like the map")
+			"for "+rw.what+" FSKeystore."+rw.method+" ("+tested+" on its file operation) returns error kind {"+strings.Join(fsKinds, ",")+"} but MemKeystore."+rw.method+" returns {"+strings.Join(memKinds, ",")+"}: the two keystores disagree, the FS keystore does not behave like the map")
 	}
 }
 
@@ -645,4 +648,77 @@ func c40JoinParts(v ssa.Value, isDirLoad func(ssa.Value) bool) ([]ssa.Value, boo
 		return nil, false
 	}
 	return []ssa.Value{dir, call.Call.Args[idx]}, true
+}
+
+// c40FSKinds: the kinds of error fn returns when its file operation fails with
+// the given fs sentinel. The file operation is a direct package-level os call,
+// or a call of a package-local helper that performs one (followed recursively:
+// the helper may already map the sentinel itself; an error handed through
+// unchanged keeps the helper's kinds). nTests counts the errors.Is tests found.
+func c40FSKinds(fn *ssa.Function, sentinel string, kindOf func(ssa.Value, []ssa.Value) string, depth int) (kinds []string, site ssa.CallInstruction, nTests int, ok bool) {
+	var osCall ssa.CallInstruction
+	for _, call := range an.AllCalls(fn) {
+		ci := an.Callee(call)
+		if ci.Pkg == "os" && ci.Recv == "" && len(an.ErrResult(call)) > 0 {
+			osCall = call
+		}
+	}
+	var sub []string
+	if osCall == nil && depth > 0 {
+		for _, call := range an.AllCalls(fn) {
+			h := an.Callee(call).Static
+			if h == nil || h == fn || h.Pkg != fn.Pkg || len(h.Blocks) == 0 || len(an.ErrResult(call)) == 0 {
+				continue
+			}
+			if hk, _, ht, hok := c40FSKinds(h, sentinel, kindOf, depth-1); hok {
+				osCall, sub, nTests = call, hk, ht
+			}
+		}
+	}
+	if osCall == nil {
+		return nil, nil, 0, false
+	}
+	errs := an.ErrResult(osCall)
+	errAl := an.Aliases(errs...)
+	var isCalls []ssa.Value
+	for _, ic := range an.Calls(fn, an.M("errors", "-", "Is")) {
+		args := an.Args(ic)
+		if !errAl[args[0]] {
+			continue
+		}
+		if u, isLoad := args[1].(*ssa.UnOp); isLoad {
+			if g, isG := u.X.(*ssa.Global); isG && g.Name() == sentinel && (g.Pkg.Pkg.Path() == "io/fs" || g.Pkg.Pkg.Path() == "os") {
+				isCalls = append(isCalls, an.CallValue(ic))
+			}
+		}
+	}
+	nTests += len(isCalls)
+	cut := an.NilEdges(fn, errs, true) // the operation failed
+	if len(isCalls) > 0 {
+		cut = cut.Union(an.BoolEdges(fn, isCalls, false)) // ... with the sentinel
+	}
+	set := map[string]bool{}
+	reach := an.ReachSet(fn, osCall, cut, nil)
+	for _, in := range an.SortedInstrs(reach) {
+		r, isRet := in.(*ssa.Return)
+		if !isRet || len(r.Results) == 0 {
+			continue
+		}
+		last := r.Results[len(r.Results)-1]
+		for _, v := range an.ValuesUnder(last, reach, cut) {
+			k := kindOf(v, errs)
+			if k == "raw os error" && sub != nil {
+				for _, sk := range sub { // the helper's error handed through unchanged
+					set[sk] = true
+				}
+				continue
+			}
+			set[k] = true
+		}
+	}
+	for k := range set {
+		kinds = append(kinds, k)
+	}
+	sort.Strings(kinds)
+	return kinds, osCall, nTests, true
 }
